@@ -351,16 +351,34 @@ Qed.
 
 Lemma resolve_direct_mixin sch frags fn fd : find_frag fn frags = Some fd ->
   forall fuel ss root unp fields mix unp',
-  resolve fuel sch frags ss root unp = Some (fields, mix, unp') ->
-  In (SSpread fn) ss -> unpack_fragment sch fd (Some root) = false -> In fn mix.
+  resolve fuel sch frags false ss root unp = Some (fields, mix, unp') ->
+  In (SSpread fn false) ss -> unpack_fragment sch fd (Some root) = false -> In fn mix.
 Proof.
   intros Hf. induction fuel as [|f IH]; intros ss root unp fields mix unp' H Hin Hu; [discriminate|].
   simpl in H. destruct ss as [|s rest]; [destruct Hin|].
   match type of H with match ?r1 with _ => _ end = _ => destruct r1 as [[[f1 m1] u1]|] eqn:E1; [|discriminate] end.
-  destruct (resolve f sch frags rest root u1) as [[[f2 m2] u2]|] eqn:E2; [|discriminate].
+  destruct (resolve f sch frags false rest root u1) as [[[f2 m2] u2]|] eqn:E2; [|discriminate].
   inversion H; subst. apply in_or_app. destruct Hin as [->|Hin].
   - left. rewrite Hf in E1. rewrite Hu in E1. simpl in E1. inversion E1; subst. left. reflexivity.
   - right. eapply IH; eassumption.
+Qed.
+
+(* a spread carrying @skip/@include, or lying under a conditional container, is never a base *)
+Lemma resolve_under_no_mixin sch frags : forall fuel ss root unp fields mix unp',
+  resolve fuel sch frags true ss root unp = Some (fields, mix, unp') -> mix = [].
+Proof.
+  induction fuel as [|f IH]; intros ss root unp fields mix unp' H; [discriminate|].
+  simpl in H. destruct ss as [|s rest]; [inversion H; reflexivity|].
+  match type of H with match ?r1 with _ => _ end = _ => destruct r1 as [[[f1 m1] u1]|] eqn:E1; [|discriminate] end.
+  destruct (resolve f sch frags true rest root u1) as [[[f2 m2] u2]|] eqn:E2; [|discriminate].
+  inversion H; subst. apply IH in E2. subst m2. rewrite app_nil_r.
+  destruct s as [al nm mx sub|fn c|tc c sub].
+  - inversion E1; reflexivity.
+  - destruct (find_frag fn frags) as [fd|]; [|discriminate]. simpl in E1.
+    destruct (String.eqb (fr_on fd) root || (is_abstract sch (fr_on fd) && is_sub_type sch (fr_on fd) root)).
+    + eapply IH; exact E1.
+    + inversion E1; reflexivity.
+  - destruct (inline_root sch tc root) as [rt|]; [eapply IH; exact E1 | inversion E1; reflexivity].
 Qed.
 
 (* ---------- the base graph: inherited fragments, reduced bases (fix 959c464) ---------- *)
@@ -518,17 +536,18 @@ Qed.
 Lemma ptd_head fuel sch frags g snake cn tn ss extra s cs s' :
   ptd fuel sch frags g snake cn tn ss extra s = Some (cs, s') -> mem cn (st_public s) = false ->
   exists f fields mix unp' rest, fuel = S f /\
-    resolve f sch frags ss tn (st_unp s) = Some (fields, mix, unp') /\
+    resolve f sch frags false ss tn (st_unp s) = Some (fields, mix, unp') /\
     cs = {| c_name := cn; c_type := tn; c_bases := class_bases g mix extra; c_frags := sort_uniq mix;
             c_direct := direct_spreads ss; c_bfrags := sort_uniq (reduced g mix) |} :: rest.
 Proof.
   intros H Hm. destruct fuel as [|f]; [discriminate|]. simpl in H. rewrite Hm in H.
-  destruct (resolve f sch frags ss tn (st_unp s)) as [[[fields mix] unp']|] eqn:E; [|discriminate].
+  destruct (resolve f sch frags false ss tn (st_unp s)) as [[[fields mix] unp']|] eqn:E; [|discriminate].
   match type of H with match ?gg with _ => _ end = _ => destruct gg as [[extras s2]|]; [|discriminate] end.
   inversion H; subst. exists f, fields, mix, unp', extras. split; [reflexivity|]. split; [exact E | reflexivity].
 Qed.
 
-(* EVERY fragment spread directly in the selection set, defined on exactly the evaluated type (not a
+(* EVERY fragment spread directly and UNCONDITIONALLY (no @skip/@include on the spread; the selection set of a
+   class is never under a conditional container) in the selection set, defined on exactly the evaluated type (not a
    union) and without inline fragments, is resolved as a base, and its class is a listed base or is
    inherited through a listed base along the emitted (reduced) class hierarchy: the object is an
    instance of it *)
@@ -536,7 +555,7 @@ Theorem mixin_instance_lemma fuel sch frags g snake cn tn ss extra s cs s' :
   acyclic_g g ->
   ptd fuel sch frags g snake cn tn ss extra s = Some (cs, s') -> mem cn (st_public s) = false ->
   exists c rest, cs = c :: rest /\ c_name c = cn /\ c_type c = tn /\
-    forall fn fd, In (SSpread fn) ss -> find_frag fn frags = Some fd ->
+    forall fn fd, In (SSpread fn false) ss -> find_frag fn frags = Some fd ->
       is_union sch (fr_on fd) = false -> fr_on fd = tn -> existsb is_inline (fr_sel fd) = false ->
       In fn (c_frags c) /\
       exists b, In b (c_bfrags c) /\ In (pascal_s b) (c_bases c) /\ reachable (rgraph g) b fn.
@@ -666,4 +685,26 @@ Proof.
     { apply NoDup_incl_length; [apply NoDup_nodup|]. intros x Hx. apply nodup_In in Hx. exact Hx. }
     lia.
   - exists names', done'. split; [exact E|]. exact (fragment_present_lemma _ _ _ _ _ _ _ E).
+Qed.
+
+(* a selection set consisting of conditional containers only (conditional spreads / conditional inline
+   fragments) yields no base class at all *)
+Lemma conditional_only_no_mixin sch frags : forall fuel ss root unp fields mix unp',
+  forallb (fun s => match s with SSpread _ c => c | SInline _ c _ => c | SField _ _ _ _ => true end) ss = true ->
+  resolve fuel sch frags false ss root unp = Some (fields, mix, unp') -> mix = [].
+Proof.
+  induction fuel as [|f IH]; intros ss root unp fields mix unp' Hall H; [discriminate|].
+  simpl in H. destruct ss as [|s rest]; [inversion H; reflexivity|].
+  simpl in Hall. apply andb_true_iff in Hall. destruct Hall as [Hs Hrest].
+  match type of H with match ?r1 with _ => _ end = _ => destruct r1 as [[[f1 m1] u1]|] eqn:E1; [|discriminate] end.
+  destruct (resolve f sch frags false rest root u1) as [[[f2 m2] u2]|] eqn:E2; [|discriminate].
+  inversion H; subst. apply (IH _ _ _ _ _ _ Hrest) in E2. subst m2. rewrite app_nil_r.
+  destruct s as [al nm mx sub|fn c|tc c sub]; simpl in Hs.
+  - inversion E1; reflexivity.
+  - subst c. destruct (find_frag fn frags) as [fd|]; [|discriminate]. simpl in E1.
+    destruct (String.eqb (fr_on fd) root || (is_abstract sch (fr_on fd) && is_sub_type sch (fr_on fd) root)).
+    + eapply resolve_under_no_mixin; exact E1.
+    + inversion E1; reflexivity.
+  - subst c. destruct (inline_root sch tc root) as [rt|];
+      [eapply resolve_under_no_mixin; exact E1 | inversion E1; reflexivity].
 Qed.
